@@ -814,6 +814,7 @@ func ParseCommands(env *interp.ExecEnv, name string, src interface{}) ([]ast.Com
 
 	l := newLexer(env, name, r)
 	yyParse(l)
+	l.wait()
 	return l.cmds, l.comments, l.err
 }
 
